@@ -70,3 +70,10 @@ CLAIMED['C19'] = dict(
          'the per-round fold equals the declarative specification; only IPv4/UDP/Dublin responses carry checksums (all else stays not-applicable); no rewriting => never detected; one rewriting device => detected exactly at the first responding hop at or beyond it.',
     note=STATE_NOTE + ' The expected checksum recomputation from quoted ports/length/pattern (Ipv4::calc_udp_checksum) belongs to the receive-path model (C02/C04 slice).',
     technique='Coq proof (case analysis + list induction) + differential testing + per-round specification oracle')
+
+CLAIMED['C20'] = dict(
+    text='PARTIAL. Coq theorem for the lock discipline as modelled (handler = write lock around all sub-updates of a round; snapshot = clone under read lock; clear = store empty under write lock), '
+         'any number of readers and clearers and EVERY schedule: every snapshot equals the whole consecutive rounds since the last completed clear. '
+         'Tie to the code: controlled pre-emption of the real Tracer at every yield point inside update_from_round with a reader and a clearer (must stay blocked; snapshots must equal a sequentially recomputed whole-rounds state) + free-running stress.',
+    note='trusted: Coq kernel; the interleaving model (Conc/Tracer.v) and its fidelity to parking_lot::RwLock and the Rust memory model (assumed); the yield hook; schedule exploration is testing, not proof.',
+    technique='Coq proof (lock invariant over all schedules of an interleaving model) + controlled-schedule execution of the real code')
